@@ -1,5 +1,6 @@
 (* C05 - streaming decoder output is independent of the data arrival schedule.  Statements only. *)
-From PV Require Import Base.Bytes Model.Proc Model.Types Model.Enc Model.Dec Proofs.ProcSim Proofs.ProcSched Proofs.DecStream.
+From PV Require Import Base.Bytes Model.Proc Model.Types Model.Enc Model.Dec Proofs.ProcSim Proofs.ProcSched Proofs.DecStream
+     Model.TableTypes Gen.Tables Proofs.RoundTrip2 Proofs.StreamStage2.
 Local Open Scope nat_scope.
 
 (* Generic: any decoder that touches its input only through all-or-nothing, re-tryable reads,
@@ -38,3 +39,28 @@ Example C05_nonvacuous :
   = [OUnder; OUnder; OUnder; OUnder; OUnder; OUnder;
      ODone (Ok [(DV TInt (VInt 5), 3); (DV TInt (VInt 7), 6)]) 6].
 Proof. vm_compute. reflexivity. Qed.
+
+(* Unconditional, for every input: any stage-2 type (simple types, SEQUENCE OF, SET OF, SEQUENCE of mandatory
+   components, any tagging, any depth), any value, ANY arrival schedule that delivers the encoding followed
+   by anything - any partition into chunks, any empty polls, no end-of-stream needed: the retry loop
+   reports underrun some number of times and then yields exactly the object one-shot decoding yields,
+   at exactly the end of the encoding *)
+Theorem C05_stage2_any_schedule : forall T v b,
+  stage2_ty T = true -> stage2_val T v = true ->
+  encode BER true 0 T v = Ok b -> (N.of_nat (length b) <= index_max)%N ->
+  exists v', abs T v' = abs T v /\
+    forall fuel tl sched, length b + ty_depth T <= fuel ->
+    wf_sched false sched -> arrivals sched = b ++ tl ->
+    decode_with BER fuel (Some T) (b ++ tl) = Ok (DV T v', tl)
+    /\ exists j, drive sched (dec_item BER fuel (Some T)) (mkStream [] 0 false 0)
+                 = repeat OUnder j ++ [ODone (Ok (DV T v')) (length b)].
+Proof. exact c05_stage2_sched. Qed.
+Print Assumptions C05_stage2_any_schedule.
+
+Example C05_stage2_any_schedule_nonvacuous :
+  let sched := [Arrive (firstn 7 stage2_example_enc); Poll; Arrive (skipn 7 (firstn 30 stage2_example_enc));
+                Arrive (skipn 30 stage2_example_enc ++ [9%N; 9%N])] in
+  wf_sched false sched /\ arrivals sched = stage2_example_enc ++ [9%N; 9%N]
+  /\ drive sched (dec_item BER 60 (Some stage2_example_ty)) (mkStream [] 0 false 0)
+     = repeat OUnder 4 ++ [ODone (Ok (DV stage2_example_ty stage2_example_val)) 50].
+Proof. exact c05_example. Qed.
